@@ -20,6 +20,9 @@ def run(ctx) -> None:
     ctx.rules_run += ["Q1", "Q2"]
     rule_Q1(ctx)            # Timestamp / Duration fields round-trip only if the (seconds, nanos) split is exact
     rule_Q2(ctx)
+    from . import varint
+    ctx.rules_run.append("N7")
+    varint.rule_N7(ctx)     # the buffer reader used for packed elements / nested messages accepts what the writer emits (10-byte varints)
     ctx.rules_run.append("D2")
     presence.rule_D2(ctx)   # presence survives the round trip only if set members are emitted (selected oneof / optional / empty sub-message)
     ctx.floor("T1", "types", len([o for o in ctx.obs if o.rule == "T1"]), 17)
